@@ -6,34 +6,14 @@ import Glom.Lemmas.C11b
 namespace Glom.C11
 open Glom Glom.Mut
 
-/-- the side condition under which the `missing` recursion is covered by the refinement:
-    T-rooted destination, immediate path arguments, and a value arg mode leaves alone -/
-def MissingOK (env : MEnv) (h : Heap) (target : Val) (sroot : Bool) (orig : List Step) (vs : ValSpec)
-    (missing : Missing) : Prop :=
-  missing = .none ∨
-    (sroot = false ∧ noScope env = true ∧ argsScalar orig = true ∧
-      ∀ v, refVal env h target vs = some v → valOK h v = true)
-
 theorem mem_of_mem_dropLast {α} {l : List α} {a : α} (h : a ∈ l.dropLast) : a ∈ l := by
   rw [List.dropLast_eq_take] at h
   exact List.mem_of_mem_take h
 
-theorem missingOK_sound {env : MEnv} {h : Heap} {target : Val} {sroot : Bool} {orig : List Step}
-    {vs : ValSpec} {missing : Missing} (hm : missingOK env h target sroot orig vs missing = true) :
-    MissingOK env h target sroot orig vs missing := by
-  cases missing with
-  | none => exact .inl rfl
-  | factory kind =>
-    simp only [missingOK, Bool.and_eq_true, Bool.not_eq_true'] at hm
-    refine .inr ⟨hm.1.1.1, hm.1.1.2, hm.1.2, ?_⟩
-    intro v hv
-    have := hm.2
-    rw [hv] at this
-    exact this
-
 def ValWF (h : Heap) : ValSpec → Prop
   | .path s => C01.wfSteps s = true
   | .lit v => rebuilds h v = false
+  | .val _ => True
 
 theorem evalVal_spec {env : MEnv} (hwf : WF env = true) (hc : classesOK env = true) (st : St)
     (target : Val) (vs : ValSpec) (hvs : ValWF st.heap vs) :
@@ -41,7 +21,8 @@ theorem evalVal_spec {env : MEnv} (hwf : WF env = true) (hc : classesOK env = tr
     | some v => evalVal env st target vs = (st, .ok v)
     | none => ∃ e, evalVal env st target vs = (st, .error e) := by
   cases vs with
-  | lit v => simp only [ValWF] at hvs; simp [refVal, evalVal, reArgVal_ok hvs]
+  | lit v => simp only [ValWF] at hvs; simp [refVal, evalVal, hvs]
+  | val v => simp [refVal, evalVal]
   | path s =>
     simp only [ValWF] at hvs
     have hspec := fetch_spec hwf hc st.heap s (wfSteps_wfStar hvs) (.inl (wfSteps_noStar hvs)) 0 target
@@ -89,7 +70,7 @@ theorem assign_spec {env : MEnv} (hwf : WF env = true) (hc : classesOK env = tru
     (sroot : Bool) (sref : Val) (missing : Missing) (h : Heap) (target : Val) (orig : List Step)
     (vs : ValSpec) (hs : C01.wfSteps orig = true)
     (hvs : valWf vs = true) (hvu : valUnsupported h vs = false)
-    (hm : MissingOK env h target sroot orig vs missing) :
+    (hm : missingOK env orig missing = true) :
     Refines h target (assign env sroot sref missing h target orig vs)
       (refAssign env h target (if sroot then sref else target) orig vs missing) := by
   obtain ⟨hwf1, _, _, _, _, _⟩ := WF_parts hwf
@@ -112,6 +93,7 @@ theorem assign_spec {env : MEnv} (hwf : WF env = true) (hc : classesOK env = tru
         cases vs with
         | path s => exact hvs
         | lit v => simpa [valUnsupported, ValWF] using hreb
+        | val v => trivial
       have hev := evalVal_spec hwf hc { heap := h } target vs hvs'
       simp only at hev
       cases hrv : refVal env h target vs with
@@ -158,13 +140,11 @@ theorem assign_spec {env : MEnv} (hwf : WF env = true) (hc : classesOK env = tru
             rw [assignAux_fetch_pae_none hl hfin hev hspec]
             exact ⟨⟨_, rfl⟩, Pres.refl _, Nat.le_refl _⟩
           | factory kind =>
-            rcases hm with hm | ⟨hsr, hns, has, hvok⟩
-            · cases hm
-            · subst hsr
-              simp only [Bool.false_eq_true, if_false] at hspec hmo ⊢
-              obtain ⟨_, hklt, hpre, s, hsk, hacc⟩ := matchesOf_fail_split orig.dropLast hpns 0
-                (if false then sref else target) k e stop (by simpa using hmo)
-              simp only [Nat.sub_zero, Bool.false_eq_true, if_false] at hklt hpre hsk
+            simp only [missingOK, Bool.and_eq_true] at hm
+            obtain ⟨has, hfs⟩ := hm
+            · obtain ⟨_, hklt, hpre, s, hsk, hacc⟩ := matchesOf_fail_split orig.dropLast hpns 0
+                (if sroot then sref else target) k e stop hmo
+              simp only [Nat.sub_zero] at hklt hpre hsk
               have hklt' : k < orig.length := by
                 have : orig.dropLast.length ≤ orig.length := by simp
                 omega
@@ -189,8 +169,8 @@ theorem assign_spec {env : MEnv} (hwf : WF env = true) (hc : classesOK env = tru
                 intro t ht
                 exact finalOk_of_wfSteps ((wfSteps_iff orig).1 hs t
                   (List.mem_of_mem_drop (getLast?_mem ht)))
-              have hts := tail_spec hwf hc hns sref kind v h (hvok v hrv) (orig.drop (k + 1)) hremw
-                hremlast hremne orig.length (by simp) { heap := h } (Pres.refl _) (Nat.le_refl _)
+              have hts := tail_spec hwf hc hfs sref kind v (orig.drop (k + 1)) hremw
+                hremlast hremne orig.length (by simp) { heap := h }
               simp only [hok]
               obtain ⟨sop, sarg⟩ := s
               cases hbt : buildTail env kind v (orig.drop (k + 1)) h with
@@ -205,17 +185,18 @@ theorem assign_spec {env : MEnv} (hwf : WF env = true) (hc : classesOK env = tru
                 obtain ⟨st2, hrun, hh2, hc2, hhid2, hp2, hl2⟩ := hts
                 simp only [hrun]
                 -- re-fetch of the existing prefix in the extended heap
-                have hpre' : matchesOf env st2.heap (orig.take k) 0 target = .ok [stop] := by
+                have hpre' : matchesOf env st2.heap (orig.take k) 0 (if sroot then sref else target) =
+                    .ok [stop] := by
                   rw [htake, hh2]
                   have htw : C01.wfSteps (orig.dropLast.take k) = true :=
                     wfSteps_sub hpw (fun t ht => List.mem_of_mem_take ht)
                   exact matchesOf_pres hp2 _ (wfSteps_noStar htw)
                     (argsScalar_of (fun t ht => argsScalar_sub has t
-                      (mem_of_mem_dropLast (List.mem_of_mem_take ht)))) 0 target _ hpre
+                      (mem_of_mem_dropLast (List.mem_of_mem_take ht)))) 0 _ _ hpre
                 have htw : C01.wfSteps (orig.take k) = true :=
                   wfSteps_sub hs (fun t ht => List.mem_of_mem_take ht)
                 have hspec2 := fetch_spec hwf hc st2.heap (orig.take k) (wfSteps_wfStar htw)
-                  (.inl (wfSteps_noStar htw)) 0 target
+                  (.inl (wfSteps_noStar htw)) 0 (if sroot then sref else target)
                 rw [hpre'] at hspec2
                 obtain ⟨nest2, hf2, hu2, hlv2⟩ := hspec2
                 rw [stars_zero (wfSteps_noStar htw)] at hu2
